@@ -17,6 +17,8 @@ RULE = ("jsstr: every string up to L over {' \" \\\\ x u { } 0 a G LF}; attrs: e
 
 JS = [b"'", b'"', b"\\", b"x", b"u", b"{", b"}", b"0", b"a", b"G", b"\n"]
 AT = [b"<", b">", b"=", b"'", b'"', b" ", b"\n", b"a", b"-", b":", b"/", b"1"]
+# a second, coarser alphabet with a backslash (HTML has no backslash escapes: a quote after one still closes the value)
+AT2 = [b"<a", b">", b" b=", b'"', b"'", b"\\", b" ", b"c"]
 
 HEX = b"0123456789abcdefABCDEF"
 
@@ -138,7 +140,7 @@ def gen_tag(rng):
 
     def value():
         c = rng.random()
-        inner = b"".join(rng.choice([b"a", b" ", b">", b"=", b"<", b"b c", b"/"]) for _ in range(rng.randint(0, 4)))
+        inner = b"".join(rng.choice([b"a", b" ", b">", b"=", b"<", b"b c", b"/", b"\\", b"C:\\t\\"]) for _ in range(rng.randint(0, 4)))
         if c < 0.3:
             return b'"' + inner.replace(b'"', b"") + rng.choice([b"", b"'", b"it's"]) + b'"'
         if c < 0.6:
@@ -193,6 +195,8 @@ def search(ctx):
         one(ctx, "jsstr", d, do_model=False)
     for d in loaders.all_strings(AT, 5):
         one(ctx, "attrs", d, do_model=False)
+    for d in loaders.all_strings(AT2, 5):
+        one(ctx, "attrs", d, do_model=False)
     for _ in range(60000):
         one(ctx, "attrs", gen_doc(ctx.rng), do_model=False)
         one(ctx, "jsstr", gen_js(ctx.rng), do_model=False)
@@ -204,6 +208,8 @@ def run(ctx) -> int:
     for d in loaders.all_strings(JS, L):
         one(ctx, "jsstr", d)
     for d in loaders.all_strings(AT, L):
+        one(ctx, "attrs", d)
+    for d in loaders.all_strings(AT2, 6 if ctx.thorough else 4):
         one(ctx, "attrs", d)
     ctx.exhaustive.append(f"every string up to length {L} over the 11-symbol JS alphabet and the 12-symbol attribute alphabet")
     rng = ctx.rng
